@@ -107,10 +107,7 @@ Proof. exact transform_Z_action. Qed.
 (** Non-vacuity, over integer coordinates with mid = componentwise sum (any function will do):
     a closed contour whose off-curve run wraps around the end; the three shapes of F11 (curve
     and qcurve without off-curves, an off-curve-only contour) are legal and drawn. *)
-Definition ZP := (Z * Z)%type.
-Definition zsum (a b : ZP) : ZP := (fst a + fst b, snd a + snd b)%Z.
-Definition zc (l : list (ptype * Z * Z)) : list (point ZP) :=
-  map (fun t => ((fst (fst t), false), (snd (fst t), snd t))) l.
+(** [ZP], [zsum], [zc]: integer points, componentwise sum, contour from (type, x, y) triples (Proofs/PathP.v) *)
 
 Example C20_wraparound :
   let c := zc [(Off, 1, 10); (Curve, 2, 20); (Line, 3, 30); (Off, 4, 40)]%Z in
